@@ -1,16 +1,21 @@
 """C03 - variable scoping follows the configured context behaviour.
 
-Reference semantics: coq/Core/Sem.v (fill_state / comp_state)   Theorems: coq/Props/C03.v (Core/ScopeProofs.v, Core/CtxStack.v)
-Correspondence: generated programs whose variable names are all distinct (plus unbound "probe" reads), then the same
-program with TWO names merged (collisions chosen around fills / component tags, plus random pairs), both context
-behaviours, `only` on some tags and - in django mode - on all tags; expected output = reference scoping evaluated in Coq.
+Reference semantics: coq/Core/Sem.v (fill_state / comp_state)
+Theorems: coq/Props/C03.v (Core/ScopeProofs.v scope equations, Core/ScopeNI.v whole-program non-interference, Core/CtxStack.v layer stack)
+Correspondence, expected output = reference scoping evaluated inside Coq:
+  0. corpus/C03: one minimal witness per root-cause class;
+  1. exhaustive small family (c03_util.grid_programs): ONE fill, every assignment of a colliding / own name to the 8 binder
+     sites around it x both behaviours x only x tag position x with/for; loops in component templates (loop_programs);
+  2. seeded programs with pairwise distinct names (plus unbound probe reads), the same program with TWO names merged
+     (pairs related through a fill / component tag, plus random pairs), `only` on some tags and - django mode - on all tags,
+     and probe variants (unpassed page variable / forloop read in every template, inner data / forloop read in every fill).
 Direct oracles on the implementation (independent of the model):
   * the caller's Context is left exactly as found (layer count, flatten(), render_context depth, keys per layer);
   * two-run non-interference: the same program rendered with two page contexts / component data that differ only in
     variables that are never passed (page variable read by component templates, component data read by the caller's fill
     content) gives identical output when components are isolated (isolated mode; django mode with `only` on every tag).
 A failing program is named by the root-cause class it belongs to (c03_util.classes: predicates on the program text);
-a failure outside every class is reported as `c03-<mode>-unclassified`.
+a failure outside every class is reported as `c03-<mode>-unclassified` / `c03-<mode>-noninterference`.
 """
 import json
 import os
@@ -86,7 +91,7 @@ def render(prog, ctx_report=None):
     o = R.render_page(prog, ctx_report=rep)
     if o == ("err", "other:Timeout"):
         rep = []
-        _limit[0] = 40.0
+        _limit[0] = 20.0
         try:
             o = R.render_page(prog, ctx_report=rep)
         finally:
@@ -135,14 +140,14 @@ def evaluate(chk, cases, tag):
     """run implementation + reference (Coq) for every case; rows = [kind, idx, prog, impl_outcome, agrees]"""
     rows, terms = [], []
     for kind, idx, prog in cases:
-        if _hangs[0] >= 12:
+        if _hangs[0] >= 8:
             break       # the tree under test hangs on many programs: reported once (below), do not spend the budget on it
         rep = []
         o = render(prog, ctx_report=rep)
         if o == ("err", "other:Timeout"):
             _hangs[0] += 1
-            if _hangs[0] == 12:
-                chk.fail("c03-render-hangs", "12 renders exceeded the 4 s watchdog; remaining programs skipped",
+            if _hangs[0] == 8:
+                chk.fail("c03-render-hangs", "8 renders exceeded the watchdog (4 s, then 20 s); remaining programs skipped",
                          {"program": prog, "implementation": o, **describe(prog)})
         rows.append([kind, idx, prog, o, None])
         # direct oracle: the caller's Context is left as found (dicts, flatten, render_context depth, keys per layer)
@@ -232,7 +237,7 @@ def noninterference(chk, mode, bases, reported):
     """two-run oracle on the implementation: same program, unpassed values differ => identical output"""
     n = 0
     for idx, p in bases:
-        if _hangs[0] >= 12:
+        if _hangs[0] >= 8:
             break
         q = p if mode == "isolated" else set_only(p)
         a, b = U.ni_variant(q, "A"), U.ni_variant(q, "B")
